@@ -54,7 +54,13 @@ Lemma p_backspace_ok c s ctrl :
 Proof.
   cbn zeta. unfold p_backspace. destruct (p_buf s) eqn:Eb; [cbn; auto|].
   destruct ctrl; [cbn; auto|]. destruct (removelast (n :: s0)) eqn:Er; [cbn; auto|].
-  pose proof (create_ok c (set_buf s (n0 :: l))) as [Hf Hb]. rewrite Hb. exact Hf.
+  pose proof (create_ok c (set_buf s (n0 :: l))) as [Hf Hb].
+  destruct (create_suggestion Q c (set_buf s (n0 :: l))) as [s' o]. cbn [fst snd] in *.
+  destruct (out_empty o) eqn:Eo; cbn [fst snd].
+  - destruct o as [aux l' sel ansi|t a|]; cbn [out_empty] in Eo; try discriminate.
+    + destruct l'; [|discriminate]. cbn [full_ok] in Hf. destruct Hf as (Hl & _). congruence.
+    + cbn [full_ok]. exact I.
+  - rewrite Hb. exact Hf.
 Qed.
 
 (** ** fixed method *)
